@@ -309,6 +309,11 @@ def needs_rule(ctx, r):
     for a in arrs:
         for x in a["xs"]:
             names.add(H.canon(x).split("::")[-1])
+    # ... or compared one by one (`enc == UTF_16LE || enc == UTF_16BE || enc == UTF_8`): the encodings named in the function
+    if not names:
+        import re as _re, json as _json
+        for u in facts.with_closures(g.path):
+            names |= set(_re.findall(r"encoding_rs::(UTF_[0-9A-Z_]+?)(?:_INIT)?\b", _json.dumps(u.mir)))
     fb = [c for u in facts.with_closures(g.path) for c in u.calls_to("encoding_rs::Encoding::for_bom")]
     if names == {"UTF_16LE", "UTF_16BE", "UTF_8"} and fb:
         r.ok("bom-set", "BOM encodings = %s via Encoding::for_bom" % sorted(names), fn=g)
